@@ -4,6 +4,8 @@
 From VLS Require Import Base.U64 Model.Enforcement Model.Secrets
   Proofs.EnforcementProofs Proofs.CounterpartyProofs Proofs.SecretsProofs.
 From VLS Require Gen.EnforcementGen Proofs.EnforcementGenProofs.
+From Coq Require String.
+From VLS Require Gen.EnforcementRulesGen Proofs.EnforcementRulesGenProofs Proofs.RustFacts.
 
 Definition c03_filter (warn : tag -> bool) : Prop :=
   warn TPrevRevoked = false /\ warn TRetrySame = false /\ warn TOther = false.
@@ -150,3 +152,65 @@ Theorem C03_previous_info_lookup_is_source :
     Val (prev_info_for e (num + 1) (num + 2)).
 Proof. exact EnforcementGenProofs.gen_prev_info_is_model. Qed.
 Print Assumptions C03_previous_info_lookup_is_source.
+
+(** The decisions in front of those updates are the ones in the source as well.  Gen/EnforcementRulesGen.v is
+    the statement-by-statement translation of SimpleValidator's validate_counterparty_commitment_tx
+    (whole body; the answer [v] of its call of validate_commitment_tx - the model's [pol_ok] - is a
+    parameter) and validate_counterparty_revocation, over the EnforcementState record of
+    Gen/EnforcementGen.v and calling its look-ups.  Outcomes are compared without the tag
+    ([status_of]: accepted / refused / panic); the source's filter is a function of the tag string,
+    read on the names of the model's tags by [etag_filter] (TPrevRevoked =
+    policy-commitment-previous-revoked, TRetrySame = policy-commitment-retry-same: one source tag each).
+
+    Signing.  After the content verdict the source decides what [do_sign_cp] decides in front of the
+    setter guards: refused when [next_r e + 1 < n] (unless policy-commitment-previous-revoked is
+    downgraded), abort when [n + 1] overflows, and then [validate_cp_state e n n1 n2 pt c] - on a retry
+    ([n + 1 = next_c e]) the point must be the current point and the content the current content (each
+    policy-commitment-retry-same).  [n2] is arbitrary: it is read only through [prev_info_for] in the
+    retry branch, where the answer does not depend on it, and the source does not compute [n + 2] there.
+    Side condition [next_r e < U64MAX]: the source computes next_counterparty_revoke_num + 1 with a
+    plain [+]. *)
+Theorem C03_sign_window_is_source :
+  forall (prof : profile) (swarn : String.string -> bool) (fr : EnforcementGenProofs.frame) (e : estate)
+         (v : trap (Rust.result unit)) (n : N) (pt : point) (setup cstate : N) (c : content) (n2 : N),
+    next_r e < U64MAX ->
+    RustFacts.status_of
+      (EnforcementRulesGen.gen_validate_counterparty_commitment_tx prof swarn v
+         (EnforcementGenProofs.to_res fr e) n pt setup cstate c) =
+    EnforcementRulesGenProofs.after_content v
+      (if (next_r e + 1 <? n) && perr (EnforcementRulesGenProofs.etag_filter swarn) TPrevRevoked
+       then Some false
+       else match add_p prof n 1 with
+            | Trap => None
+            | Val n1 => Some (validate_cp_state (EnforcementRulesGenProofs.etag_filter swarn) e n n1 n2 pt c)
+            end).
+Proof. exact EnforcementRulesGenProofs.gen_cp_checks_are_model. Qed.
+Print Assumptions C03_sign_window_is_source.
+
+(** Revocation.  The source decides what [do_revocation] decides up to [revocation_checks]: abort when
+    [r + 1] overflows; [r + 2] is computed only when [r + 1] is not the next commitment number, and on
+    its overflow the request is refused if the number check refuses and aborts otherwise; then
+    [revocation_checks e r r1 r2 pt_of_secret]: [r] is the next number to revoke or the one before, and
+    the point of the supplied secret is the point signed for [r].  The point of the secret is
+    [point_of ctx secret] for an uninterpreted [point_of] (PublicKey::from_secret_key) - the model's
+    oracle input.  No side condition. *)
+Theorem C03_revocation_checks_are_source :
+  forall (prof : profile) (swarn : String.string -> bool) (fr : EnforcementGenProofs.frame) (e : estate)
+         (ctx : N) (point_of : N -> N -> N) (r secret : N),
+    RustFacts.status_of
+      (EnforcementRulesGen.gen_validate_counterparty_revocation prof swarn ctx point_of
+         (EnforcementGenProofs.to_res fr e) r secret) =
+    match add_p prof r 1 with
+    | Trap => None
+    | Val r1 =>
+        match (if r1 =? next_c e then Val 0 else add_p prof r 2) with
+        | Trap =>
+            if negb (r =? next_r e) && negb (r1 =? next_r e)
+               && perr (EnforcementRulesGenProofs.etag_filter swarn) TPrevRevoked
+            then Some false else None
+        | Val r2 =>
+            Some (revocation_checks (EnforcementRulesGenProofs.etag_filter swarn) e r r1 r2 (point_of ctx secret))
+        end
+    end.
+Proof. exact EnforcementRulesGenProofs.gen_revocation_checks_are_model. Qed.
+Print Assumptions C03_revocation_checks_are_source.
